@@ -9,6 +9,8 @@ reference tree has:
      file, is inlined at its call sites inside the file - parameters bound to the arguments, early returns turned
      into if/else, the result bound to the call's target - and its definition is dropped once nothing refers to it.
      The callers are then compared with the reference like any other edited function.
+  Q  new properties: `@property def p(self): return <expression over self.attributes, no calls>` that the reference
+     class does not have is opened at its reads `self.p` inside the class.
   U  unrolled loops: a `for` over a literal display of up to four stable operands that the reference function does
      not have (no break / continue / else, no closures) is unrolled with per-iteration names; V substitutes them.
   V  hoisted values: a local that the reference function does not have, bound exactly once by `v = E` with E free
@@ -199,6 +201,13 @@ class _FoldConstantTests(ast.NodeTransformer):
                 return n
             self.n += 1
             return ast.copy_location(ast.Constant(value=v), n)
+        if len(n.ops) == 1 and isinstance(n.ops[0], (ast.In, ast.NotIn)) and self._const(n.left) and \
+                isinstance(n.comparators[0], (ast.Tuple, ast.List, ast.Set)) and \
+                all(self._const(e) for e in n.comparators[0].elts):
+            a = n.left.value
+            hit = any(type(e.value) is type(a) and e.value == a for e in n.comparators[0].elts)
+            self.n += 1
+            return ast.copy_location(ast.Constant(value=hit if isinstance(n.ops[0], ast.In) else not hit), n)
         return n
 
     def visit_BoolOp(self, n):
@@ -249,6 +258,11 @@ class _FoldConstantTests(ast.NodeTransformer):
                 out.extend(r)
             else:
                 out.append(r)
+        # what follows an unconditional return / raise / continue / break (left by a folded test) is never executed
+        for i, st in enumerate(out):
+            if isinstance(st, (ast.Return, ast.Raise, ast.Continue, ast.Break)) and i + 1 < len(out) and self.n:
+                del out[i + 1:]
+                break
         return out
 
     def visit_If(self, n):
@@ -580,6 +594,10 @@ def _inline_call(caller, body, idx, st, c, helper, how, where):
             path = _path_to(st, c)
             if not path or not legal_site(st, path, ret):
                 return False
+            if new and not legal_site(st, path, ast.Call(func=ast.Name(id='f', ctx=ast.Load()), args=[], keywords=[])):
+                # the helper's statements would run before the host statement although the call itself is only
+                # evaluated under a condition (an arm of a conditional expression, a later operand of and / or)
+                return False
             _set_at(st, path, ret)
             keep = [st]
             sink = None
@@ -653,9 +671,8 @@ def inline_new_helpers(tree, known: set[str], external: set[str] = frozenset()) 
         new = [(q, fn, cls, owner) for q, fn, cls, owner in funcs if q not in known and _eligible_helper(fn)]
         for q, helper, cls, owner in new:
             # a helper that itself calls another new helper is handled once that one is gone
-            others = {f.name for _, f, _, _ in new if f is not helper}
-            if any(isinstance(x, ast.Call) and ((isinstance(x.func, ast.Name) and x.func.id in others) or
-                                                (isinstance(x.func, ast.Attribute) and x.func.attr in others))
+            others = [(f, c2) for _, f, c2, _ in new if f is not helper]
+            if any(isinstance(x, ast.Call) and any(_match_call(x, f.name, c2, cls, helper) is not None for f, c2 in others)
                    for x in _walk_scope(helper)):
                 if len(new) > 1:
                     continue
@@ -840,6 +857,17 @@ def _uses_allow_substitution(fn, def_st, E, loads) -> bool:
         return not in_repeated_region(loads[0])
     if one_shot:
         return False
+    # a call of a function of the program is never evaluated more often than it was written
+    from .loader import dotted_name
+    for x in ast.walk(E):
+        if isinstance(x, ast.Call):
+            f = x.func
+            if isinstance(f, ast.Name) and (f.id in PURE_FUNCS or f.id in SCALAR_FUNCS):
+                continue
+            if isinstance(f, ast.Attribute) and ((dotted_name(f.value) or '').split('.')[0] in ('np', 'numpy', 'math')
+                                                 or f.attr in PURE_METHODS):
+                continue
+            return False
     for ld in loads:
         par = pm.get(id(ld))
         ok = False
@@ -924,6 +952,12 @@ def inline_new_locals(fn, ref_names: set[str], ref_sigs: set[str], mutated: set[
                             chain.append(first.attr if isinstance(first, ast.Attribute) else '[]')
                             first = first.value
                         roots.setdefault(r, set()).update(chain)
+            if not isinstance(E, ast.Name):
+                # a bare name read through a call or an operator (`len(data)`, `sum(xs)`, `a + b`): what E yields also
+                # changes when the object behind the name is altered in place
+                for x in ast.walk(E):
+                    if isinstance(x, ast.Name) and isinstance(x.ctx, ast.Load):
+                        roots.setdefault(x.id, set())
             ok = True
             for st in rng:
                 for x in [st, *_walk_scope(st)]:
@@ -982,7 +1016,15 @@ def inline_new_locals(fn, ref_names: set[str], ref_sigs: set[str], mutated: set[
 # ------------------------------------------------------------------------------------------------ U  unrolled loops
 
 def _loop_heads(fn) -> set[str]:
-    return {_txt(x.target) + ' in ' + _txt(x.iter) for x in ast.walk(fn) if isinstance(x, (ast.For, ast.AsyncFor))}
+    """what the loops of fn iterate over (a renamed loop variable does not make a loop new; local names inside the
+    display may be renamed too, so displays are also compared by length and element kinds)"""
+    out = set()
+    for x in ast.walk(fn):
+        if isinstance(x, (ast.For, ast.AsyncFor)):
+            out.add(_txt(x.iter))
+            if isinstance(x.iter, (ast.Tuple, ast.List)):
+                out.add('#display:%d' % len(x.iter.elts))
+    return out
 
 
 def _own_jumps(loop) -> bool:
@@ -1040,7 +1082,7 @@ def unroll_new_display_loops(fn, ref_heads: set[str]) -> int:
                 if not isinstance(st, ast.For) or st.orelse or not isinstance(st.iter, (ast.Tuple, ast.List)):
                     continue
                 elts = st.iter.elts
-                if not (1 <= len(elts) <= 4) or _txt(st.target) + ' in ' + _txt(st.iter) in ref_heads:
+                if not (1 <= len(elts) <= 4) or _txt(st.iter) in ref_heads or '#display:%d' % len(elts) in ref_heads:
                     continue
                 if _own_jumps(st):
                     continue
@@ -1194,6 +1236,74 @@ class _FoldDisplaySubscripts(ast.NodeTransformer):
         return n
 
 
+# ------------------------------------------------------------------------------------------------ Q  new properties
+
+def open_new_properties(tree, known: set[str]) -> int:
+    """`@property def p(self): return <effect-free expression over self.attributes>` that the reference class does not
+    have: a read `self.p` inside the class is that expression (evaluated at the read, as the property is)."""
+    done = 0
+    for cls in [x for x in ast.walk(tree) if isinstance(x, ast.ClassDef)]:
+        props = {}
+        for st in cls.body:
+            if not isinstance(st, ast.FunctionDef) or f'{cls.name}.{st.name}' in known:
+                continue
+            if len(st.decorator_list) != 1 or not (isinstance(st.decorator_list[0], ast.Name)
+                                                   and st.decorator_list[0].id == 'property'):
+                continue
+            a = st.args
+            if len(a.args) != 1 or a.posonlyargs or a.kwonlyargs or a.vararg or a.kwarg:
+                continue
+            body = [b for i, b in enumerate(st.body)
+                    if not (i == 0 and isinstance(b, ast.Expr) and isinstance(b.value, ast.Constant)
+                            and isinstance(b.value.value, str))]
+            if len(body) != 1 or not isinstance(body[0], ast.Return) or body[0].value is None:
+                continue
+            e = body[0].value
+            me = a.args[0].arg
+            if not _effect_free(e) or any(isinstance(x, (ast.Call, ast.Lambda, ast.ListComp, ast.SetComp, ast.DictComp,
+                                                         ast.GeneratorExp)) for x in ast.walk(e)):
+                continue
+            props[st.name] = (me, e, st)
+        if not props:
+            continue
+        # a setter / deleter of the same name, or a store to it, means it is not a plain read-only view
+        for nm in list(props):
+            for x in ast.walk(cls):
+                if isinstance(x, ast.Attribute) and x.attr == nm and not isinstance(x.ctx, ast.Load):
+                    props.pop(nm, None)
+                if isinstance(x, ast.Attribute) and isinstance(x.value, ast.Name) and x.value.id == nm and \
+                        x.attr in ('setter', 'deleter'):
+                    props.pop(nm, None)
+        for fn in cls.body:
+            if not isinstance(fn, (ast.FunctionDef, ast.AsyncFunctionDef)) or not fn.args.args:
+                continue
+            recv = fn.args.args[0].arg
+            if any(isinstance(d, ast.Name) and d.id in ('staticmethod', 'classmethod') for d in fn.decorator_list):
+                continue
+            for _ in range(4):
+                hit = False
+                for x in ast.walk(fn):
+                    if isinstance(x, ast.Attribute) and isinstance(x.ctx, ast.Load) and isinstance(x.value, ast.Name) \
+                            and x.value.id == recv and x.attr in props and props[x.attr][2] is not fn:
+                        me, e, _d = props[x.attr]
+                        new = copy.deepcopy(e)
+                        for y in ast.walk(new):
+                            if isinstance(y, ast.Name) and y.id == me:
+                                y.id = recv
+                            if isinstance(y, (ast.expr,)):
+                                ast.copy_location(y, x)
+                        x.__class__ = new.__class__
+                        x.__dict__.clear()
+                        x.__dict__.update(new.__dict__)
+                        done += 1
+                        hit = True
+                        break
+                if not hit:
+                    break
+    return done
+
+
+
 # ------------------------------------------------------------------------------------------------ entry point
 
 def prenormalise(tree, rel: str, R: dict):
@@ -1204,7 +1314,10 @@ def prenormalise(tree, rel: str, R: dict):
     if not known:
         return tree, 0
     n = strip_logging(tree)
-    n += inline_new_helpers(tree, known, EXTERNAL_REFS.get(rel, frozenset()))
+    n += open_new_properties(tree, known)
+    from . import structnorm
+    pulled_here = {nm for (r, nm) in structnorm.PULLED if r == rel}
+    n += inline_new_helpers(tree, known, set(EXTERNAL_REFS.get(rel, frozenset())) - pulled_here)
     mutated = _mutated_attrs(tree)
     for q, fn in list(_functions(tree)):
         if q not in known:
